@@ -8,7 +8,19 @@ from .. import outputcrawl as oc
 
 THEOREMS = ["Privacy.hidden_inherits", "Output.hidden_inherits", "Output.hidden_inside", "Output.entry_visible",
             "Output.no_trace", "Output.no_trace_links", "Output.no_trace_files", "Output.private_marked",
-            "Output.public_unmarked", "Output.no_trace_texts_partial", "Output.no_trace_texts_counterexample",
+            "Output.public_unmarked", "Output.marker_of",
+            "Output.no_trace_writeDocsFor", "Output.no_trace_pages", "Output.no_trace_taglink", "Output.no_trace_ChildTable",
+            "Output.no_trace_packageInitTable", "Output.no_trace_methods", "Output.no_trace_submodules",
+            "Output.no_trace_unmasked_attrs", "Output.no_trace_baseTables", "Output.no_trace_inherited_members",
+            "Output.no_trace_assembleList", "Output.no_trace_overriding_subclasses", "Output.no_trace_sidebar",
+            "Output.no_trace_moduleIndex", "Output.no_trace_findRootClasses", "Output.no_trace_subclassesFrom",
+            "Output.no_trace_classIndex", "Output.no_trace_nameIndex", "Output.no_trace_search", "Output.no_trace_inventory",
+            "Output.no_trace_indexRoots",
+            "Output.private_marked_ChildTable", "Output.private_marked_packageInitTable", "Output.private_marked_baseTables",
+            "Output.private_marked_childlist", "Output.private_marked_sidebar", "Output.private_marked_moduleIndex",
+            "Output.private_marked_allDocuments", "Output.private_marked_nameIndex", "Output.classIndex_marker",
+            "Output.classNodePrivate_sound", "Output.ctxPrivate_of_private",
+            "Output.no_trace_texts_partial", "Output.no_trace_texts_counterexample",
             "Output.no_trace_counterexample_old", "Output.no_trace_counterexample_root_old"]
 RULE = ("same runs as C11 (scenario projects: hidden base of a visible class, hidden module imported from, hidden member "
         "overridden and cross-referenced, private objects at every level and by rule, hidden roots, hidden nested classes "
@@ -174,6 +186,8 @@ def _account(ctx: Ctx, good) -> None:
         t = res["truth"]
         nt = nontrivial(res)
         canon = repr((sorted(res["case"]["units"].items()), res["case"].get("path"), res["case"]["privacy"], sorted(res["case"]["opts"].items())))
+        ctx.count("case-kind:" + ("corpus" if res["case"]["name"].startswith("corpus:") else "real" if res["case"].get("path")
+                                  else "random" if res["case"]["name"].startswith("gen") else "scenario"))
         ctx.case(canon, nt, {"name": res["case"]["name"], "privacy": res["case"]["privacy"], "opts": res["case"]["opts"],
                              "modules": sorted(res["case"]["units"])} if nt else None)
         ctx.count("rules", len(res["case"]["privacy"]))
